@@ -14,6 +14,8 @@ func main() {
 	switch os.Args[1] {
 	case "l1":
 		runL1(os.Args[2:])
+	case "l2":
+		runL2(os.Args[2:])
 	default:
 		fmt.Fprintln(os.Stderr, "unknown layer", os.Args[1])
 		os.Exit(3)
